@@ -149,7 +149,8 @@ fn alphabet_stream(fmt: u8, variant: usize) -> Vec<Packet> {
     for i in 0..8usize {
         let mut r = Rdh::base();
         r.header_id = if (i + variant) % 3 == 0 { 6 } else { 7 };
-        r.data_format = fmt;
+        // fmt 9 = mixed: the packets of one batch alternate between data formats 2 and 0
+        r.data_format = if fmt == 9 { [2u8, 0][i % 2] } else { fmt };
         r.link_id = [0u8, 1, 5, 11, 15, 9, 2, 3][i];
         let (l, s) = layers_staves[(i + variant) % layers_staves.len()];
         r.fee_id = Rdh::its_fee_id(l, s, (i % 3) as u8);
@@ -198,7 +199,8 @@ fn alphabet_stream(fmt: u8, variant: usize) -> Vec<Packet> {
         // zero bytes, or the tool takes a format-2 payload for format 0 (known finding, judged separately)
         let mut ws: Vec<[u8; 10]> = vec![words::ihw(0x0FFF_FFFF), words::data_word(0x21, [0x99; 9])];
         ws.extend(all_words.iter().skip(i * per).take(per).copied());
-        packets.push(Packet::framed(r, payload::pack(&ws, fmt)));
+        let f = r.data_format;
+        packets.push(Packet::framed(r, payload::pack(&ws, f)));
     }
     // the first RDH must be recognisable for the CLI
     packets[0].rdh.header_id = 7;
@@ -283,7 +285,7 @@ pub fn run(tier: Tier) -> i32 {
     let mut rep = Reporter::new("C19", tier, "exploration");
     let mut cases = Vec::new();
     let variants = if tier.is_thorough() { 6 } else { 2 };
-    for fmt in [0u8, 2] {
+    for fmt in [0u8, 2, 9] {
         for v in 0..variants {
             let pk = alphabet_stream(fmt, v);
             let bytes = stream::to_bytes(&pk);
@@ -336,7 +338,7 @@ pub fn run(tier: Tier) -> i32 {
     rep.cov("evaluations", json!(cases.len() * 2));
     rep.cov("distinct_nontrivial", json!(cases.len()));
     rep.cov("exhaustive", json!(true));
-    rep.cov("rule", json!("alphabet streams (8 RDH variants: versions 6/7, stop 0/1, 7 layer/stave pairs, 8 link ids, 8 trigger kinds, 8 detector-field patterns, orbit / BC extremes; words: 2 IHW, 32 TDH flag/trigger combinations, 24 TDT and 12 DDW0 lane-fault patterns, CDW, 9 data word ids) x data formats 0/2 x 2 (6) value variants x 3 views x 4 filters x {styled, -d}; 6 witnesses x 3 views with ground-truth word types. Every row is compared token by token with the model's decode at that offset"));
+    rep.cov("rule", json!("alphabet streams (8 RDH variants: versions 6/7, stop 0/1, 7 layer/stave pairs, 8 link ids, 8 trigger kinds, 8 detector-field patterns, orbit / BC extremes; words: 2 IHW, 32 TDH flag/trigger combinations, 24 TDT and 12 DDW0 lane-fault patterns, CDW, 9 data word ids) x data formats 0 / 2 / alternating within one batch x 2 (6) value variants x 3 views x 4 filters x {styled, -d}; 6 witnesses x 3 views with ground-truth word types. Every row is compared token by token with the model's decode at that offset"));
     rep.sample(json!({"row": "4A: TDH [03 1A 00 00 75 D5 7D 0B 00 E8] SOC Data! 192796021_ 0"}));
     rep.assume("spacing is normalised (tokens compared); the colour / style sequences are stripped, not judged");
     rep.finish()
